@@ -22,7 +22,7 @@ from dataclasses import dataclass
 from fractions import Fraction
 from typing import Any, Iterable
 
-from ..engine.absint import Obj
+from ..engine.absint import Obj, _Raise
 from ..engine.order import Atom, Expr, OrderInterp
 from ..engine.report import AnalysisError
 from ..engine.resolver import FuncInfo, Program, walk_no_nested
@@ -199,6 +199,50 @@ class LinInterp(OrderInterp):
         return super().apply(fn, pos, kw, node)
 
 
+class StoreInterp(LinInterp):
+    """LinInterp for the bookkeeping around the sweep: buckets are real sets of proposal keys
+    ((priority, source_id), the equality of Proposal), and calls of the anchored sweep function are
+    not entered but recorded together with their arguments."""
+
+    stub = "_calc_target_power"
+
+    def __init__(self, prog: Program, module: Any) -> None:
+        super().__init__(prog, module)
+        self.stub_calls: list[tuple[list[Any], dict[str, Any]]] = []
+
+    def reset(self) -> None:
+        super().reset()
+        self.stub_calls = []
+
+    def key(self, k: Any) -> Any:
+        if isinstance(k, Obj) and k.cls == "Proposal" and {"priority", "source_id"} <= set(k.fields):
+            return ("Proposal", k.fields["priority"], k.fields["source_id"])
+        return super().key(k)
+
+    def builtin(self, name: str, pos: list[Any], kw: dict[str, Any], node: ast.AST) -> Any:
+        if name == "set" and not kw:
+            return {self.key(x) for x in self.iterate(pos[0], node)} if pos else set()
+        return super().builtin(name, pos, kw, node)
+
+    def iterate(self, v: Any, node: ast.AST) -> Any:
+        if isinstance(v, (set, frozenset)):
+            return sorted(v, key=repr)
+        return super().iterate(v, node)
+
+    def apply(self, fn: Any, pos: list[Any], kw: dict[str, Any], node: ast.AST) -> Any:
+        target = fn[1] if isinstance(fn, tuple) and fn and fn[0] == "bound" else fn
+        if isinstance(target, FuncInfo) and target.name == self.stub:
+            self.stub_calls.append((list(pos), dict(kw)))
+            return Atom("NEW_TARGET")
+        if isinstance(fn, tuple) and fn and fn[0] == "setmethod":
+            try:
+                getattr(fn[1], fn[2])(self.key(pos[0]))
+            except KeyError:
+                raise _Raise("KeyError", node) from None
+            return None
+        return super().apply(fn, pos, kw, node)
+
+
 # ---------------------------------------------------------------------------------------------
 # sweep structure and roles
 # ---------------------------------------------------------------------------------------------
@@ -352,11 +396,17 @@ def sweep_roles(prog: Program, fn: FuncInfo, sys_index: int, extra: dict[str, An
     return sw
 
 
+STOPPED = "_sweep_stopped"
+
+
 def step_function(sw: Sweep, name: str, ret: list[str]) -> ast.FunctionDef:
-    """One iteration of the sweep's loop (break / continue end the iteration), returning `ret`."""
+    """One iteration of the sweep's loop (break / continue end the iteration), returning `ret`;
+    the name STOPPED may be returned too: True iff the iteration left the loop with `break`."""
     once = ast.For(target=ast.Name(id="_once", ctx=ast.Store()),
-                   iter=ast.List(elts=[ast.Constant(0)], ctx=ast.Load()), body=sw.loop.body, orelse=[])
-    return synth(name, [once], ret)
+                   iter=ast.List(elts=[ast.Constant(0)], ctx=ast.Load()), body=sw.loop.body,
+                   orelse=[ast.Assign(targets=[ast.Name(id=STOPPED, ctx=ast.Store())], value=ast.Constant(False))])
+    init = ast.Assign(targets=[ast.Name(id=STOPPED, ctx=ast.Store())], value=ast.Constant(True))
+    return synth(name, [init, once], ret)
 
 
 # ---------------------------------------------------------------------------------------------
